@@ -43,7 +43,7 @@ def statuses_present(rankings, univ):
 def table_cases(draw, tier):
     big = tier == "thorough"
     scheme = draw(gen.any_schemes())
-    ds = draw(gen.datasets(max_n=12 if big else 8, max_m=8 if big else 5))
+    ds = draw(gen.datasets(max_n=12 if big else 8, max_m=8 if big else 5, many="thousand"))
     univ = oracle.universe(ds["rankings"])
     cands = [draw(gen.candidates(univ)) for _ in range(3)]
     return {"scheme": scheme, "dataset": ds, "cands": cands,
